@@ -77,6 +77,14 @@ func trees(tier string) []*ukit.Spec {
 		}
 	}
 	out = append(out, chainTrees()...)
+	// references by a table key that is not the id of the object found under it (an alias in a namespace table)
+	for _, pos := range []string{"prop", "list", "oneof"} {
+		root := obj("Root", "outer-root",
+			ukit.Prop{Name: "ra", Type: ref("A", "")},
+			ukit.Prop{Name: "al", Type: wrap(pos, ref("Alias", "n1"))},
+		)
+		out = append(out, &ukit.Spec{Kind: ukit.KScope, Root: "Root", Objects: []*ukit.Spec{root, obj("A", "outer-A"), obj("B", "outer-B")}})
+	}
 	// references below a disabled property (disabled before anything is linked, as the builders and a loaded
 	// description do it): a disabled property rejects values, its type is still part of the schema
 	for _, ns := range nss {
@@ -165,6 +173,10 @@ func buildTree(spec *ukit.Spec) (*built, *ukit.Spec) {
 			b.ext[ns][o.ID] = ukit.BuildObject(o)
 			b.extS[ns][o.ID] = o
 		}
+		// an alias: the table also lists object A under another key (a reference is resolved by the key of the table,
+		// whatever id the object it finds there carries)
+		b.ext[ns]["Alias"] = b.ext[ns]["A"]
+		b.extS[ns]["Alias"] = b.extS[ns]["A"]
 	}
 	return b, s
 }
